@@ -23,7 +23,7 @@ BOUNDED = {
     r'.*': 'parameter spaces of 1..3 parameters with 1..3 values each and tables of 1..2 rows (symbolic values and enabled flags)',
 }      # unit-name / obligation-name patterns -> the family these obligations are proved for
 TRUSTED = ["shapes are bounded: 1..3 parameters, list lengths 1..3, 1..2 table rows (symbolic values, defaults and enabled flags inside each shape)",
-           "itertools.product order; pandas MultiIndex.from_product / Series.to_xarray keep product order (boundary)", "xarray places each run at its coordinates (boundary)",
+           "itertools.product order; pandas: Series(list(idx), index=idx).to_xarray() of idx = MultiIndex.from_product(lists, names) holds entry l at the coordinates l (boundary contract, not proved)", "xarray places each run at its coordinates (boundary)",
            "processor.get(key) returns the configured default of key"]
 LEVEL = "other"      # bounded family of shapes: not claimed as an unbounded proof
 SHAPES = [(2,), (1, 3), (3, 2), (2, 1, 2), (2, 3, 2)]
@@ -329,6 +329,24 @@ def label_product(u: Unit):
 
 
 # ---- the parameter array of the parallel path ---------------------------------------------------------------------------
+PAR_REPLAY = lambda w: {"code": """
+from pyxel.observation import ParameterValues
+from pyxel.observation.misc import ProductMode
+VIOLATED, DETAIL = False, 'every cell of the parameter array holds the values of its own labels'
+for xs, ys in (([30, 10, 20], [2.5, 0.5]), ([1, 2, 3], [10, 20]), (['uniform', 'elliptic'], [7, 3, 5])):
+    ps = [ParameterValues(key='a.b.x', values=xs), ParameterValues(key='a.b.y', values=ys), ParameterValues(key='a.b.z', values=[1, 2], enabled=False)]
+    arr = ProductMode(ps).create_params(dim_names={'a.b.x': 'x', 'a.b.y': 'y'})
+    if tuple(arr.dims) != ('x', 'y') or arr.size != len(xs) * len(ys):
+        VIOLATED, DETAIL = True, f'lists {xs} x {ys}: dims {arr.dims} size {arr.size}'; break
+    for x in xs:
+        for y in ys:
+            cell = arr.sel(x=x, y=y).item()
+            if tuple(cell) != (x, y):
+                VIOLATED, DETAIL = True, f'lists {xs} x {ys}: the run labelled x={x!r}, y={y!r} is made with the values {cell!r}'; break
+""", "expect": "parallel product mode: the run stored under the labels (x, y) is the run made with the values (x, y), also for lists that are not ascending"}
+STANDIN = {r"parallel\.params": PAR_REPLAY}
+
+
 @unit("C05", "parallel.params")
 def parallel_params(u: Unit):
     """create_params (dask path): what reaches pandas must enumerate the same space as the sequential path."""
@@ -369,7 +387,19 @@ DETAIL = f'sequential mode with lists of 3 and 2 values: the parallel path prepa
                         lists = [p.ex.try_list(x) for x in (p.ex.try_list(ev[2][0]) or [])]
                         names = [x.v for x in (p.ex.try_list(ev[3].get("names")) or [])]
                         ok = len(lists) == 2 and all(len(lists[j]) == shape[j] and all(same(lists[j][i], holder["vals"][j][i]) for i in range(shape[j])) for j in range(2)) and names == ["k0", "k1"]
-                u.oblige(p, "parallel.params[product]", bool(ok), {}, ENUM_REPLAY)
+                u.oblige(p, "parallel.params[product]", bool(ok), {}, PAR_REPLAY)
+                # ... and the array handed back is Series(list(IDX), index=IDX).to_xarray() of THAT index: the library contract
+                # (TRUSTED) is that this array holds, at the coordinates l, the entry l, for every l of the index
+                def prov(v):
+                    return v.info if isinstance(v, VOpaque) else {}
+                r = prov(p.value)
+                ser = prov(prov(r.get("fn")).get("of")) if prov(r.get("fn")).get("attr") == "to_xarray" else {}
+                data = (ser.get("args") or [None])[0] if ser.get("label") == "pandas.Series()" else None
+                idx = (ser.get("kwargs") or {}).get("index")
+                ok2 = (isinstance(idx, VOpaque) and prov(idx).get("label") == "pandas.MultiIndex.from_product()" and isinstance(data, VOpaque)
+                       and prov(data).get("of") is idx and str(prov(data).get("label", "")).startswith("list(")
+                       and sum(1 for ev in p.st.events if ev[0] == "lib_call" and ev[1].endswith("MultiIndex.from_product")) == 1)
+                u.oblige(p, "parallel.params[product].entries_at_their_own_labels", bool(ok2), {"returned": str(r.get("label"))}, PAR_REPLAY)
             else:
                 # sequential space: 3 + 2 one-at-a-time runs; the rows handed to pandas must be that many
                 rows = None
